@@ -93,6 +93,9 @@ def run(tier, seed):
     rep = Report(PID, tier, seed, "proof")
     po = proof_obligations("WowVerif.Thm.C06", ["wowdrv"])
     add_proof_failures(rep, po)
+    po_b = proof_obligations("WowVerif.Thm.C06b")       # the script compiled from a definition is its decoder: script_decodes, definition_chunk_invariant
+    add_proof_failures(rep, po_b)
+    po = dict(po, theorems=dict(po["theorems"], **po_b["theorems"]), obligations=po["obligations"] + po_b["obligations"], discharged=po["discharged"] + po_b["discharged"])
     # ---- (a) T-gen
     triples, problems = async_copies.scan()
     prims, pproblems = async_copies.scan_primitives()
@@ -184,10 +187,10 @@ def run(tier, seed):
             mreq.append(f"chunkframe {lib} {dr} {s}")
             midx.append(i)
         elif key is not None:
-            flat = bytes.fromhex(s.replace("p", "").replace(",", "")) if s != "-" else b""
-            if len(flat) >= 1:
-                mreq.append(f"dec {key} {flat[1:].hex() or '-'}")
-                midx.append(i)
+            # login: the read_exact script compiled from the definition (Model/ChunkSem.lean, Thm/C06b.lean) run by the chunked semantics
+            # over the SAME schedule
+            mreq.append(f"chunkdef {key} {s}")
+            midx.append(i)
     mo = d.ask_many(mreq)
     d.close()
     model = dict(zip(midx, mo))
@@ -237,14 +240,17 @@ def run(tier, seed):
                               {"library": lib, "direction": dr, "schedule": s, "model": m, "implementation": h, "replay_cmd": f"echo '{rq[:20000]}' | {har}",
                                "model_cmd": f"echo 'chunkframe {lib} {dr} {s[:20000]}' | {driver_path()}"})
         else:
-            # specification decoder on the concatenation: ok n=k <-> implementation ok n=k+1; eof <-> err_eof
+            # the definition's script over the same schedule: ok n=k <-> implementation ok n=k; eof <-> err_eof
+            if "scriptable=0" in m:
+                model_cmp["login:not-scriptable"] += 1
+                continue
             if m.startswith("ok") and "n=" in m:
                 k = int(re.search(r"n=(\d+)", m).group(1))
-                good = out_.startswith("ok:") and mn and int(mn.group(1)) == k + 1
-            elif "eof" in m:
+                good = out_.startswith("ok:") and mn and int(mn.group(1)) == k
+            elif m.startswith("eof"):
                 good = out_ == "err_eof"
             else:
-                good = not out_.startswith("ok:") or True     # other error kinds are compared by C04
+                good = not out_.startswith("ok:")
             # a disagreement with the specification decoder is a matter of C01/C04 (e.g. the known finding about constants in
             # else-branches); C06 only requires the three variants to agree, so it is counted, not reported
             model_cmp["login:" + ("same" if good else "differs-from-specification(C01)")] += 1
@@ -276,6 +282,6 @@ def run(tier, seed):
         "samples": [{"request": reqs[i][:160], "implementation": ho[i][:120]} for i in (0, len(reqs) // 3, len(reqs) - 1)],
     }
     rep.assumptions = ["real executors, wakers and sockets are not modelled: futures are polled by a single-threaded loop and the transport is scripted (Pending always re-wakes)",
-                       "login message readers are covered by the generic theorem through the copy-identity check; only the world header/body readers are written out as scripts in Lean",
+                       "login message readers: the script compiled from each definition (Model/ChunkSem.lean) is proved to be the specification decoder and is run over the same schedules; that the Rust readers ARE that script is the copy-identity check + the reader tie (progeq) + this correspondence",
                        "encrypted async readers/writers share their text with the blocking ones (checked by T-gen); their chunked behaviour is exercised for unencrypted variants only"]
     return rep.finish()
